@@ -1,21 +1,152 @@
-import S2S.Spec.Routing
+import S2S.Proofs.RoutingC02Step
 namespace S2S.Routing
+
+theorem getD_replicate_default {α} (n : Nat) (d : α) (i : Nat) : (List.replicate n d).getD i d = d := by
+  simp only [List.getD_eq_getElem?_getD, List.getElem?_replicate]
+  split <;> rfl
+
+theorem srcInv_default : SrcInv {} := by
+  constructor
+  · intro _; exact ⟨rfl, rfl⟩
+  · intro p hp; cases hp
+  · exact List.Pairwise.nil
+
+theorem tgtInv_default : TgtInv {} := by
+  constructor
+  · intro _; exact ⟨rfl, rfl, rfl, rfl, rfl⟩
+  · intro e he; cases he
+  · intro e he; cases he
+  · trivial
+  · show (0 : Int) ≤ 0; decide
+  · show (0 : Int) ≤ 0 + 1; decide
+
+theorem inv_init (ns nt : Nat) : Inv (State.init ns nt) := by
+  have hs : ∀ s, (State.init ns nt).src s = {} := fun s => getD_replicate_default ns ({} : Source) s
+  have ht : ∀ t, (State.init ns nt).tgt t = {} := fun t => getD_replicate_default nt ({} : Target) t
+  constructor
+  · intro s; rw [hs]; exact srcInv_default
+  · intro t; rw [ht]; exact tgtInv_default
+  · intro s t; rw [hs, ht]; rfl
+
+def RecvPre (σ : State) : Act → Prop
+  | .recv s tasks high => RecvOK σ.targets.length (σ.src s) tasks high
+  | _ => True
+
+theorem envOK_cons (σ : State) (a : Act) (rest : List Act) (h : EnvOK Cfg.cur σ (a :: rest)) :
+    RecvPre σ a ∧ EnvOK Cfg.cur ((step Cfg.cur σ a).getD σ) rest := by
+  cases a <;> exact h
+
+theorem inv_step {σ σ' : State} {a : Act} (h : Inv σ)
+    (hok : RecvPre σ a)
+    (hnf : a.isFault = false) (hstep : step Cfg.cur σ a = some σ') : Inv σ' := by
+  cases a with
+  | recv s tasks high => exact inv_recv h hok hstep
+  | bcastStep s t => exact inv_bcastStep h hstep
+  | deliver s t => exact inv_deliver h hstep
+  | take t => exact inv_take h hstep
+  | emit t => exact inv_emit h hstep
+  | tack t w => exact inv_tack h hstep
+  | ackFwd t s => exact inv_ackFwd h hstep
+  | ackFin t => exact inv_ackFin h hstep
+  | rack s => exact inv_rack h hstep
+  | openSrc s => exact inv_openSrc h hstep
+  | openTgt t => exact inv_openTgt h hstep
+  | startTgt t => exact inv_startTgt h hstep
+  | replayStep t s => exact inv_replayStep h hstep
+  | replayDone t => exact inv_replayDone h hstep
+  | tick => exact inv_tick h hstep
+  | breakTgt t => cases hnf
+  | breakSrc s => cases hnf
+
+theorem inv_run {σ : State} (acts : List Act) (h : Inv σ) (henv : EnvOK Cfg.cur σ acts)
+    (hnf : NoFaults acts) : Inv (run Cfg.cur σ acts) := by
+  induction acts generalizing σ with
+  | nil => exact h
+  | cons a rest ih =>
+    have hrun : run Cfg.cur σ (a :: rest) = run Cfg.cur ((step Cfg.cur σ a).getD σ) rest := rfl
+    rw [hrun]
+    have henv := envOK_cons σ a rest henv
+    apply ih
+    · cases hst : step Cfg.cur σ a with
+      | none => exact h
+      | some σ' => exact inv_step h henv.1 (hnf a (List.mem_cons_self)) hst
+    · exact henv.2
+    · intro b hb; exact hnf b (List.mem_cons_of_mem _ hb)
+
+theorem inv_reach (ns nt : Nat) (acts : List Act)
+    (henv : EnvOK Cfg.cur (State.init ns nt) acts) (hnf : NoFaults acts) :
+    Inv (run Cfg.cur (State.init ns nt) acts) :=
+  inv_run acts (inv_init ns nt) henv hnf
+
+theorem pipe_split {σ : State} (h : Inv σ) (s : SId) (t : TId) :
+    (σ.src s).sentTo t = (σ.tgt t).deliveredOf s ++
+      (delOf s (σ.tgt t).holding.toList ++ ofS s (σ.tgt t).sendChan ++ pendSeg (σ.src s).pc t) := by
+  have hp := h.pipe s t
+  unfold Pipe at hp
+  rw [hp, Target.full, delOf_append, deliveredOf_eq]
+  simp only [List.append_assoc]
+
 theorem delivery_prefix (ns nt : Nat) (acts : List Act)
     (henv : EnvOK Cfg.cur (State.init ns nt) acts) (hnf : NoFaults acts) (s : SId) (t : TId) :
     ((run Cfg.cur (State.init ns nt) acts).tgt t).deliveredOf s <+:
-      ((run Cfg.cur (State.init ns nt) acts).src s).sentTo t := sorry
+      ((run Cfg.cur (State.init ns nt) acts).src s).sentTo t := by
+  have h := inv_reach ns nt acts henv hnf
+  exact ⟨_, (pipe_split h s t).symm⟩
+
 theorem delivery_complete (ns nt : Nat) (acts : List Act)
     (henv : EnvOK Cfg.cur (State.init ns nt) acts) (hnf : NoFaults acts) (s : SId) (t : TId)
     (hd : Drained (run Cfg.cur (State.init ns nt) acts) s t) :
     ((run Cfg.cur (State.init ns nt) acts).tgt t).deliveredOf s =
-      ((run Cfg.cur (State.init ns nt) acts).src s).sentTo t := sorry
+      ((run Cfg.cur (State.init ns nt) acts).src s).sentTo t := by
+  have h := inv_reach ns nt acts henv hnf
+  generalize run Cfg.cur (State.init ns nt) acts = σ at h hd ⊢
+  rw [pipe_split h s t]
+  unfold Drained drained at hd
+  simp only [Bool.and_eq_true] at hd
+  obtain ⟨⟨hpend, hchan⟩, hhold⟩ := hd
+  have h1 : pendSeg (σ.src s).pc t = [] := by
+    cases hpc : (σ.src s).pc with
+    | idle => rfl
+    | bcast hh todo => rfl
+    | deliver pending =>
+      rw [hpc] at hpend
+      simp only [Option.isNone_iff_eq_none] at hpend
+      simp only [pendSeg, hpend, Option.getD_none]
+  have h2 : ofS s (σ.tgt t).sendChan = [] := ofS_eq_nil_of_all s _ hchan
+  have h3 : delOf s (σ.tgt t).holding.toList = [] := by
+    cases hh : (σ.tgt t).holding with
+    | none => rfl
+    | some e =>
+      rw [hh] at hhold
+      simp only [Option.toList_some, delOf_singleton]
+      split
+      · rename_i hsrc
+        simp only [hsrc, bne_self_eq_false, Bool.false_or, List.isEmpty_iff] at hhold
+        have hl := (h.tgt t).lens e (by simp [Target.full, hh])
+        rw [hhold] at hl
+        exact List.eq_nil_of_length_eq_zero hl.symm
+      · rfl
+  rw [h1, h2, h3]
+  simp
+
 theorem sent_ids_increasing (ns nt : Nat) (acts : List Act)
     (henv : EnvOK Cfg.cur (State.init ns nt) acts) (hnf : NoFaults acts) (s : SId) (t : TId) :
-    StrictInc (((run Cfg.cur (State.init ns nt) acts).src s).sentTo t) := sorry
+    StrictInc (((run Cfg.cur (State.init ns nt) acts).src s).sentTo t) := by
+  have h := inv_reach ns nt acts henv hnf
+  rw [strictInc_iff_pairwise]
+  exact List.Pairwise.sublist (List.Sublist.map _ List.filter_sublist) (h.src s).pw
+
 theorem stream_wellformed (ns nt : Nat) (acts : List Act)
     (henv : EnvOK Cfg.cur (State.init ns nt) acts) (hnf : NoFaults acts) (t : TId) :
-    StreamWF 0 0 ((run Cfg.cur (State.init ns nt) acts).tgt t).stream := sorry
+    StreamWF 0 0 ((run Cfg.cur (State.init ns nt) acts).tgt t).stream := by
+  have h := inv_reach ns nt acts henv hnf
+  exact ((streamWF_append _ _ _ _).1 (h.tgt t).wf).1
+
 theorem payload_positions (ns nt : Nat) (acts : List Act)
     (henv : EnvOK Cfg.cur (State.init ns nt) acts) (hnf : NoFaults acts) (t : TId) :
-    ∀ e ∈ ((run Cfg.cur (State.init ns nt) acts).tgt t).stream, e.ids.length = e.orig.length := sorry
+    ∀ e ∈ ((run Cfg.cur (State.init ns nt) acts).tgt t).stream, e.ids.length = e.orig.length := by
+  have h := inv_reach ns nt acts henv hnf
+  intro e he
+  exact (h.tgt t).lens e (List.mem_append_left _ he)
+
 end S2S.Routing
